@@ -1,0 +1,300 @@
+//! Verification hooks -- compiled only with the `verif` cargo feature (off by default).
+//!
+//! Provides drop-in wrappers for the `std::sync::atomic` types used by this crate that report every
+//! operation (address, kind, operands, result and the **call site**) to a hook installed by an external
+//! verification harness, plus [yield_point()] for plain (non-atomic) shared accesses and
+//! [sequence_origin()] so ring buffer counters may start anywhere (e.g. right below the 32-bit wrap).
+//!
+//! With no hook installed for the calling thread (the normal case), every wrapper is the plain std
+//! operation preceded by a thread-local flag test.
+
+use std::{
+    cell::Cell,
+    fmt::{Debug, Formatter},
+    panic::Location,
+    sync::atomic::{self as std_atomic, Ordering},
+    sync::OnceLock,
+};
+
+/// What kind of operation is about to happen / just happened
+#[derive(Debug, Clone, Copy, PartialEq, Eq)]
+pub enum OpKind {
+    Load,
+    Store,
+    Swap,
+    FetchAdd,
+    FetchSub,
+    CompareExchange,
+    CompareExchangeWeak,
+    Yield,
+}
+
+/// Description of a shared-memory operation, handed to the [Hook]
+#[derive(Debug, Clone, Copy)]
+pub struct OpInfo {
+    /// address of the atomic (or a caller provided address, for yield points; 0 if none)
+    pub addr:   usize,
+    pub kind:   OpKind,
+    /// first operand (value to store / add / expected `current` for compare-exchange)
+    pub a:      u64,
+    /// second operand (`new` for compare-exchange)
+    pub b:      u64,
+    /// for yield points: the tag given at the call site
+    pub tag:    &'static str,
+    pub caller: &'static Location<'static>,
+}
+
+/// Implemented by the verification harness
+pub trait Hook: Send + Sync {
+    /// called before the operation is performed -- may block the calling thread (scheduling point)
+    fn before(&self, op: &OpInfo);
+    /// called right after the operation was performed: `result` is the value loaded / previously held;
+    /// `ok` is false only for failed compare-exchanges
+    fn after(&self, op: &OpInfo, result: u64, ok: bool);
+}
+
+static HOOK: OnceLock<Box<dyn Hook>> = OnceLock::new();
+static SEQUENCE_ORIGIN: std_atomic::AtomicU32 = std_atomic::AtomicU32::new(0);
+
+thread_local! {
+    static ACTIVE: Cell<bool> = const { Cell::new(false) };
+}
+
+/// Installs the process-wide hook (once). Threads only report to it after calling [set_thread_active(true)]
+pub fn install_hook(hook: Box<dyn Hook>) -> bool {
+    HOOK.set(hook).is_ok()
+}
+
+/// Enables / disables reporting for the calling thread
+pub fn set_thread_active(active: bool) {
+    ACTIVE.with(|a| a.set(active));
+}
+
+/// Tells if the calling thread is reporting to the hook
+pub fn is_thread_active() -> bool {
+    ACTIVE.with(|a| a.get())
+}
+
+/// Sets the value ring-buffer sequence counters start from, for containers created from now on
+pub fn set_sequence_origin(origin: u32) {
+    SEQUENCE_ORIGIN.store(origin, Ordering::SeqCst);
+}
+
+/// The value ring-buffer sequence counters should start from (0 unless a harness changed it)
+pub fn sequence_origin() -> u32 {
+    SEQUENCE_ORIGIN.load(Ordering::SeqCst)
+}
+
+#[inline(always)]
+fn before(op: &OpInfo) -> bool {
+    if ACTIVE.with(|a| a.get()) {
+        if let Some(hook) = HOOK.get() {
+            hook.before(op);
+            return true;
+        }
+    }
+    false
+}
+
+#[inline(always)]
+fn after(active: bool, op: &OpInfo, result: u64, ok: bool) {
+    if active {
+        if let Some(hook) = HOOK.get() {
+            hook.after(op, result, ok);
+        }
+    }
+}
+
+/// Scheduling point for plain (non-atomic) shared accesses -- to be placed right before them
+#[track_caller]
+#[inline(always)]
+pub fn yield_point(tag: &'static str) {
+    yield_point_at(tag, 0)
+}
+
+/// Same as [yield_point()], informing the address of the object about to be accessed
+#[track_caller]
+#[inline(always)]
+pub fn yield_point_at(tag: &'static str, addr: usize) {
+    let op = OpInfo { addr, kind: OpKind::Yield, a: 0, b: 0, tag, caller: Location::caller() };
+    let active = before(&op);
+    after(active, &op, 0, true);
+}
+
+macro_rules! shim_int_atomic {
+    ($name: ident, $std: ty, $prim: ty) => {
+        #[repr(transparent)]
+        #[derive(Default)]
+        pub struct $name($std);
+
+        impl $name {
+            #[inline(always)]
+            pub const fn new(v: $prim) -> Self {
+                Self(<$std>::new(v))
+            }
+            #[inline(always)]
+            fn op(&self, kind: OpKind, a: u64, b: u64, caller: &'static Location<'static>) -> OpInfo {
+                OpInfo { addr: self as *const Self as usize, kind, a, b, tag: "", caller }
+            }
+            #[track_caller]
+            #[inline(always)]
+            pub fn load(&self, order: Ordering) -> $prim {
+                let op = self.op(OpKind::Load, 0, 0, Location::caller());
+                let active = before(&op);
+                let r = self.0.load(order);
+                after(active, &op, r as u64, true);
+                r
+            }
+            #[track_caller]
+            #[inline(always)]
+            pub fn store(&self, v: $prim, order: Ordering) {
+                let op = self.op(OpKind::Store, v as u64, 0, Location::caller());
+                let active = before(&op);
+                self.0.store(v, order);
+                after(active, &op, 0, true);
+            }
+            #[track_caller]
+            #[inline(always)]
+            pub fn swap(&self, v: $prim, order: Ordering) -> $prim {
+                let op = self.op(OpKind::Swap, v as u64, 0, Location::caller());
+                let active = before(&op);
+                let r = self.0.swap(v, order);
+                after(active, &op, r as u64, true);
+                r
+            }
+            #[track_caller]
+            #[inline(always)]
+            pub fn fetch_add(&self, v: $prim, order: Ordering) -> $prim {
+                let op = self.op(OpKind::FetchAdd, v as u64, 0, Location::caller());
+                let active = before(&op);
+                let r = self.0.fetch_add(v, order);
+                after(active, &op, r as u64, true);
+                r
+            }
+            #[track_caller]
+            #[inline(always)]
+            pub fn fetch_sub(&self, v: $prim, order: Ordering) -> $prim {
+                let op = self.op(OpKind::FetchSub, v as u64, 0, Location::caller());
+                let active = before(&op);
+                let r = self.0.fetch_sub(v, order);
+                after(active, &op, r as u64, true);
+                r
+            }
+            #[track_caller]
+            #[inline(always)]
+            pub fn compare_exchange(&self, current: $prim, new: $prim, success: Ordering, failure: Ordering) -> Result<$prim, $prim> {
+                let op = self.op(OpKind::CompareExchange, current as u64, new as u64, Location::caller());
+                let active = before(&op);
+                let r = self.0.compare_exchange(current, new, success, failure);
+                match r {
+                    Ok(v)  => after(active, &op, v as u64, true),
+                    Err(v) => after(active, &op, v as u64, false),
+                }
+                r
+            }
+            #[track_caller]
+            #[inline(always)]
+            pub fn compare_exchange_weak(&self, current: $prim, new: $prim, success: Ordering, failure: Ordering) -> Result<$prim, $prim> {
+                let op = self.op(OpKind::CompareExchangeWeak, current as u64, new as u64, Location::caller());
+                let active = before(&op);
+                // when a hook drives this thread, spurious failures would be noise: use the strong version
+                let r = if active {
+                    self.0.compare_exchange(current, new, success, failure)
+                } else {
+                    self.0.compare_exchange_weak(current, new, success, failure)
+                };
+                match r {
+                    Ok(v)  => after(active, &op, v as u64, true),
+                    Err(v) => after(active, &op, v as u64, false),
+                }
+                r
+            }
+        }
+
+        impl Debug for $name {
+            fn fmt(&self, f: &mut Formatter<'_>) -> std::fmt::Result {
+                Debug::fmt(&self.0, f)
+            }
+        }
+    }
+}
+
+shim_int_atomic!(AtomicU32,   std_atomic::AtomicU32,   u32);
+shim_int_atomic!(AtomicU64,   std_atomic::AtomicU64,   u64);
+shim_int_atomic!(AtomicUsize, std_atomic::AtomicUsize, usize);
+
+/// See the module docs
+#[repr(transparent)]
+#[derive(Default)]
+pub struct AtomicBool(std_atomic::AtomicBool);
+
+impl AtomicBool {
+    #[inline(always)]
+    pub const fn new(v: bool) -> Self {
+        Self(std_atomic::AtomicBool::new(v))
+    }
+    #[inline(always)]
+    fn op(&self, kind: OpKind, a: u64, b: u64, caller: &'static Location<'static>) -> OpInfo {
+        OpInfo { addr: self as *const Self as usize, kind, a, b, tag: "", caller }
+    }
+    #[track_caller]
+    #[inline(always)]
+    pub fn load(&self, order: Ordering) -> bool {
+        let op = self.op(OpKind::Load, 0, 0, Location::caller());
+        let active = before(&op);
+        let r = self.0.load(order);
+        after(active, &op, r as u64, true);
+        r
+    }
+    #[track_caller]
+    #[inline(always)]
+    pub fn store(&self, v: bool, order: Ordering) {
+        let op = self.op(OpKind::Store, v as u64, 0, Location::caller());
+        let active = before(&op);
+        self.0.store(v, order);
+        after(active, &op, 0, true);
+    }
+    #[track_caller]
+    #[inline(always)]
+    pub fn swap(&self, v: bool, order: Ordering) -> bool {
+        let op = self.op(OpKind::Swap, v as u64, 0, Location::caller());
+        let active = before(&op);
+        let r = self.0.swap(v, order);
+        after(active, &op, r as u64, true);
+        r
+    }
+    #[track_caller]
+    #[inline(always)]
+    pub fn compare_exchange(&self, current: bool, new: bool, success: Ordering, failure: Ordering) -> Result<bool, bool> {
+        let op = self.op(OpKind::CompareExchange, current as u64, new as u64, Location::caller());
+        let active = before(&op);
+        let r = self.0.compare_exchange(current, new, success, failure);
+        match r {
+            Ok(v)  => after(active, &op, v as u64, true),
+            Err(v) => after(active, &op, v as u64, false),
+        }
+        r
+    }
+    #[track_caller]
+    #[inline(always)]
+    pub fn compare_exchange_weak(&self, current: bool, new: bool, success: Ordering, failure: Ordering) -> Result<bool, bool> {
+        let op = self.op(OpKind::CompareExchangeWeak, current as u64, new as u64, Location::caller());
+        let active = before(&op);
+        let r = if active {
+            self.0.compare_exchange(current, new, success, failure)
+        } else {
+            self.0.compare_exchange_weak(current, new, success, failure)
+        };
+        match r {
+            Ok(v)  => after(active, &op, v as u64, true),
+            Err(v) => after(active, &op, v as u64, false),
+        }
+        r
+    }
+}
+
+impl Debug for AtomicBool {
+    fn fmt(&self, f: &mut Formatter<'_>) -> std::fmt::Result {
+        Debug::fmt(&self.0, f)
+    }
+}
